@@ -535,51 +535,25 @@ def run(ctx: Context) -> None:
 
     # ------------------------------------------------------------------ R06.7 extent
     with ctx.section('R06.7 extent'):
-        def extent_slots(fi, xname, yname):
-            flow = ctx.flow(fi)
-            rets = fi.returns()
-            if len(rets) != 1:
-                return None
-            v = flow.resolve(rets[0].value)
-            while isinstance(v, ast.Call) and (dotted(v.func) or '').endswith('cast'):
-                v = flow.resolve(v.args[1])
-            if not isinstance(v, ast.Tuple) or len(v.elts) != 4:
-                return None
-            out = []
-            for e in v.elts:
-                r = flow.resolve(e)
-                if isinstance(r, ast.Call) and callee(ctx, fi, r) in ('numpy.nanmin', 'numpy.nanmax') and len(r.args) == 1:
-                    fn = callee(ctx, fi, r).rsplit('.', 1)[-1]
-                    handle = norm_text(flow.resolve(r.args[0]))
-                    alias = flow.canon(r.args[0])
-                    out.append((fn, 'x' if xname in repr(alias) else ('y' if yname in repr(alias) else '?'), handle))
-                else:
-                    out.append(('?', '?', norm_text(r)))
-            return rets[0], out
-
-        # UGRID: the bounding box of the polygons that exist (all nodes would count nodes no face uses)
-        ub = ctx.func(f"{UGRID}.UGrid.bounds")
-        uflow = ctx.flow(ub)
+        # UGRID and the CF grids: the bounding box of the polygons that exist.  All nodes would count nodes no face uses; the raw
+        # coordinate bounds would count cells that have no polygon (missing latitude bounds with stored longitude bounds, a
+        # self-intersecting cell dropped with a warning): the extent would differ from the bounds of the geometry.
         from ..pattern import Matcher
-        mu = Matcher(ctx, ub)
-        tb = mu.stmt('$a, $b, $c, $d = shapely.total_bounds(self.polygons[self.mask])')
-        ok = tb is not None and bool(ub.returns()) and all(mu.match('return ($a, $b, $c, $d)', r, commit=False) for r in ub.returns())
-        if not ok:
-            direct = [r for r in ub.returns() if isinstance(uflow.resolve(r.value), ast.Call) and callee(ctx, ub, uflow.resolve(r.value)) in ('builtins.tuple', 'tuple')]
-            ok = any(mu.match('tuple(shapely.total_bounds(self.polygons[self.mask]))', uflow.resolve(r.value), commit=False) for r in ub.returns())
-        ctx.check('R06.7', bool(ok), "the mesh bounds are shapely.total_bounds of polygons[mask], slots in (min x, min y, max x, max y) order: only faces with a polygon count", ub,
-                  tb or ub.node, construct=f"UGrid.bounds = {norm_text(ub.returns()[0].value) if ub.returns() else '?'}")
-        for _k in range(3):
-            ctx.check('R06.7', bool(ok), "(slot of the mesh bounds, see above)", ub, tb or ub.node, construct=f"UGrid.bounds slot {_k + 1}")
-        for qual, xn, yn in ((f"{GRID}.CFGrid.bounds", 'longitude_bounds', 'latitude_bounds'),):
-            fi = ctx.func(qual)
-            res = extent_slots(fi, xn, yn)
-            ctx.need('R06.7', res is not None, f"{fi.short} returns a 4-tuple", fi)
-            r, slots = res
-            want = [('nanmin', 'x'), ('nanmin', 'y'), ('nanmax', 'x'), ('nanmax', 'y')]
-            for i, (slot, w) in enumerate(zip(slots, want)):
-                ctx.check('R06.7', slot[:2] == w, f"slot {i} is {w[0]} of the {w[1]} handle", fi, r,
-                          construct=f"{fi.short}: slot {i} = {slot[0]}({slot[2]})")
+        for qual in (f"{UGRID}.UGrid.bounds", f"{GRID}.CFGrid.bounds"):
+            ub = ctx.func(qual)
+            uflow = ctx.flow(ub)
+            mu = Matcher(ctx, ub)
+            # shapely.total_bounds skips missing geometries: polygons and polygons[mask] have the same bounding box
+            tb = mu.stmt('$a, $b, $c, $d = shapely.total_bounds(self.polygons[self.mask])') or mu.stmt('$a, $b, $c, $d = shapely.total_bounds(self.polygons)')
+            ok = tb is not None and bool(ub.returns()) and all(mu.match('return ($a, $b, $c, $d)', r, commit=False) for r in ub.returns())
+            if not ok:
+                ok = bool(ub.returns()) and all(any(mu.match(pat, uflow.resolve(r.value), commit=False) for pat in (
+                    'tuple(shapely.total_bounds(self.polygons[self.mask]))', 'cast($t, tuple(shapely.total_bounds(self.polygons[self.mask])))',
+                    'tuple(shapely.total_bounds(self.polygons))', 'cast($t, tuple(shapely.total_bounds(self.polygons)))')) for r in ub.returns())
+            ctx.check('R06.7', bool(ok), "the extent is shapely.total_bounds of polygons[mask], slots in (min x, min y, max x, max y) order: only cells with a polygon count", ub,
+                      tb or ub.node, construct=f"{ub.short} = {norm_text(ub.returns()[0].value) if ub.returns() else '?'}")
+            for _k in range(3):
+                ctx.check('R06.7', bool(ok), "(slot of the extent, see above)", ub, tb or ub.node, construct=f"{ub.short} slot {_k + 1}")
         g = ctx.func(f"{BASE}.geometry")
         ok = all(norm_text(r.value) == 'shapely.unary_union(self.polygons[self.mask])' for r in g.returns()) and g.returns()
         ctx.check('R06.7', bool(ok), "the generic geometry is the union of the polygons that exist", g, g.node)
@@ -627,6 +601,8 @@ VARIANTS = [
     V('C06', 'filter-bypassed', _B, "        polygons = self._make_polygons()\n\n        not_none", "        polygons = self._make_polygons()\n        if polygons.size > 100000:\n            return polygons\n\n        not_none", 'R06.6'),
     V('C06', 'invalid-kept', _B, "            polygons[invalid_polygon_indices] = None\n", "", 'R06.6'),
     V('C06', 'extent-slots-permuted', _G, "        return (min_x, min_y, max_x, max_y)", "        return (min_x, max_x, min_y, max_y)", 'R06.7'),
+    V('C06', 'grid-extent-from-raw-bounds', _G, "        min_x, min_y, max_x, max_y = shapely.total_bounds(self.polygons[self.mask])\n", "        topology = self.topology\n        min_x, max_x = numpy.nanmin(topology.longitude_bounds), numpy.nanmax(topology.longitude_bounds)\n        min_y, max_y = numpy.nanmin(topology.latitude_bounds), numpy.nanmax(topology.latitude_bounds)\n", 'R06.7'),
+    V('C06', 'grid-extent-over-all-polygons', _G, "        min_x, min_y, max_x, max_y = shapely.total_bounds(self.polygons[self.mask])\n", "        min_x, min_y, max_x, max_y = shapely.total_bounds(self.polygons)\n", None, note='total_bounds ignores missing geometries: the same extent'),
     V('C06', 'ugrid-extent-slots-swapped', _U, "        min_x, min_y, max_x, max_y = shapely.total_bounds(self.polygons[self.mask])", "        min_x, max_x, min_y, max_y = shapely.total_bounds(self.polygons[self.mask])", 'R06.7'),
     # benign
     V('C06', 'benign-cf1d-other-orientation', _G, "            lon_bounds[:, 0],\n            lon_bounds[:, 1],\n            lon_bounds[:, 1],\n            lon_bounds[:, 0],\n        ], axis=-1)", "            lon_bounds[:, 0],\n            lon_bounds[:, 0],\n            lon_bounds[:, 1],\n            lon_bounds[:, 1],\n        ], axis=-1)", None, note='together with the latitude picks below this is still a cycle? no - handled by the next variant'),
